@@ -13,7 +13,7 @@ UTF-8 bytes, the empty string is `-`):
   caps <node> <querynode> <cat> <type> <name> B<n> feat{n} E<k> ext{k} <form>
                                           → <advertised ver>|<ver of the answered info set, or not-found>
   config <node> <cat> <type> <name> B<n> feat{n} E<k> ext{k} <form>     (stateful: the configuration from now on) → ok
-  publish (fresh|derived)                 → ver of the emitted presence
+  publish (fresh|derived)                 → ver of the emitted presence, or no-caps (empty capabilities node)
   query <node>                            → ver of the answered info set, or not-found
   info := I<n> (cat type lang name){n} F<m> feat{m} <form>
   form := X- | X<k> (key kind <c> value{c}){k}         kind := t (QString) | l (QStringList) | b (bool: 31 / 30)
@@ -170,7 +170,8 @@ def pConfig : P ClientCfg := fun ts =>
 
 def showOuts (outs : List (ClientOut String)) : String :=
   match outs with
-  | [.presence v] => v
+  | [.presence (some v)] => v
+  | [.presence none] => "no-caps"
   | [.answer (some v)] => v
   | [.answer none] => "not-found"
   | _ => "-"
